@@ -75,18 +75,18 @@ CallRules(s, acc, k) ==
       v4 == IF acc.ended /\ (c.c # 0 \/ c.p # 0 \/ c.st # "END") THEN {<<k, "D4-call-after-END-had-an-effect">>} ELSE {}
       \* M1 (conformance with the control state machine DeflateStreamOps): the state the call returned in must be one the
       \* transcribed igzip.c machine can reach from the state it was entered in, for this flush / end_of_stream / room / input
-      m1 == IF Len(DsTab) = 0 \/ ~pok \/ c.ret # 0 \/ c.b0 \notin ModelStates \/ c.b1 \notin ModelStates THEN {}
-            ELSE IF c.c = 0 /\ c.p = 0 /\ c.b0 = c.b1 /\ c.t0 = c.t1 THEN {}          \* nothing happened (no input, no request): not a step
-            ELSE LET room0 == IF c.ao = 0 THEN 0 ELSE IF c.ao < 8 THEN 1 ELSE 2
-                     inp0 == IF c.ai > 0 \/ acc.buffered > 0 THEN 1 ELSE 0
-                 IN IF <<c.b0, c.t0, room0, inp0, c.flush, c.eos, IF s.level = 0 THEN 1 ELSE 0, c.b1, c.t1>> \in DsRel THEN {}
-                    ELSE {<<k, "M1-state-transition-not-in-the-model">>}
+      m1app == ~(Len(DsTab) = 0 \/ ~pok \/ c.ret # 0 \/ c.b0 \notin ModelStates \/ c.b1 \notin ModelStates)
+               /\ ~(c.c = 0 /\ c.p = 0 /\ c.b0 = c.b1 /\ c.t0 = c.t1)                    \* nothing happened (no input, no request): not a step
+      m1tup == <<c.b0, c.t0, IF c.ao = 0 THEN 0 ELSE IF c.ao < 8 THEN 1 ELSE 2, IF c.ai > 0 \/ acc.buffered > 0 THEN 1 ELSE 0,
+                 c.flush, c.eos, IF s.level = 0 THEN 1 ELSE 0, c.b1, c.t1>>
+      m1 == IF m1app /\ m1tup \notin DsRel THEN {<<k, "M1-state-transition-not-in-the-model">>} ELSE {}
+      cov == IF m1app THEN acc.cov \cup {m1tup} ELSE acc.cov                              \* model transitions exercised (coverage of the relation)
       \* D11: installing a Huffman table is refused while a block is open (attempted after the call; 99 = not attempted)
       v11 == IF c.sh = 0 /\ c.st # "NEW_HDR" THEN {<<k, "D11-set_hufftables-accepted-while-a-block-is-open">>} ELSE {}
   IN [produced |-> produced, consumed |-> consumed, given |-> given, pending |-> c.ai - c.c, viol |-> acc.viol \cup v1 \cup v3 \cup v4 \cup v6 \cup v9 \cup v11,
       dec |-> IF flushDone /\ pd.ok /\ pd.d.tag = "NeedMore" THEN [kind |-> "state", st |-> pd.d.st, hend |-> pd.hend] ELSE acc.dec,
       stall |-> stall, fullPoints |-> fullPoints, ended |-> acc.ended \/ c.st = "END", flushJudged |-> acc.flushJudged + (IF flushDone THEN 1 ELSE 0),
-      eosSeen |-> acc.eosSeen \/ c.eos = 1, buffered |-> c.bv - c.bp, drift |-> acc.drift \cup m1]
+      eosSeen |-> acc.eosSeen \/ c.eos = 1, buffered |-> c.bv - c.bp, drift |-> acc.drift \cup m1, cov |-> cov]
 
 EndRules(s, acc) ==
   LET n == Len(s.calls)
@@ -140,11 +140,11 @@ EndRules(s, acc) ==
                     dictref |-> \E bi \in 1..Len(blocks) : blocks[bi].minRef < 0]]
 
 JudgeStream(s) ==
-  LET a0 == [produced |-> <<>>, consumed |-> 0, given |-> 0, pending |-> 0, viol |-> {}, stall |-> 0, fullPoints |-> <<>>, ended |-> FALSE, flushJudged |-> 0, eosSeen |-> FALSE, dec |-> NoDec, buffered |-> 0, drift |-> {}]
+  LET a0 == [produced |-> <<>>, consumed |-> 0, given |-> 0, pending |-> 0, viol |-> {}, stall |-> 0, fullPoints |-> <<>>, ended |-> FALSE, flushJudged |-> 0, eosSeen |-> FALSE, dec |-> NoDec, buffered |-> 0, drift |-> {}, cov |-> {}]
       a == FoldLeft(LAMBDA acc, k : CallRules(s, acc, k), a0, Range1(Len(s.calls)))
       e == EndRules(s, a)
       v13 == {<<s.wrong_state_accepted[i], "D13-dictionary-call-accepted-in-a-wrong-state">> : i \in 1..Len(s.wrong_state_accepted)}
-  IN [scn |-> s.scn, viol |-> SetToSeq(e.viol \cup v13), drift |-> SetToSeq(a.drift), ncalls |-> Len(s.calls), produced |-> Len(a.produced), flush_points |-> a.flushJudged,
+  IN [scn |-> s.scn, viol |-> SetToSeq(e.viol \cup v13), drift |-> SetToSeq(a.drift), cov |-> SetToSeq(a.cov), ncalls |-> Len(s.calls), produced |-> Len(a.produced), flush_points |-> a.flushJudged,
       full_points |-> Len(a.fullPoints), stats |-> e.stats]
 
 (* ---- one-shot scenario (isal_deflate_stateless): rules S1-S4 ---- *)
